@@ -327,6 +327,9 @@ class ConcurrentTaskSet : public TaskSetBase {
           pool_.schedule(packageTask(std::forward<F>(f)), ForceQueuingTag());
           return;
         }
+        if (DISPENSO_EXPECT(canceled(), false)) {
+          return;
+        }
         detail::InlineDepthGuard depthGuard;
         f();
         return;
@@ -465,6 +468,9 @@ class ConcurrentTaskSet : public TaskSetBase {
           curWork > pool_.poolLoadFactor_.load(std::memory_order_relaxed)) {
         if (!detail::PerPoolPerThreadInfo::canInlineSchedule()) {
           pool_.schedulePlaced(packageTask(std::forward<F>(f)), ForceQueuingTag());
+          return;
+        }
+        if (DISPENSO_EXPECT(canceled(), false)) {
           return;
         }
         detail::InlineDepthGuard depthGuard;
